@@ -335,7 +335,7 @@ pub fn run(ctx: &Ctx) -> Outcome {
     let n_random = ctx.size(4_000_000, 40_000_000);
     let random_shards = 64usize;
     let shards = 256 + 1 + 1 + 1 + 1 + random_shards;
-    let report = run_sharded(ctx, shards, |shard, rep| {
+    let mut report = run_sharded(ctx, shards, |shard, rep| {
         if shard < 256 {
             let hi = shard as u16;
             for lo in 0..256u16 {
@@ -464,6 +464,12 @@ pub fn run(ctx: &Ctx) -> Outcome {
             rep.add("random_frames", n);
         }
     });
+    {
+        // the same calls from a thread-local destructor while a thread exits (see exitprobe.rs)
+        let mut at_exit = Report::new();
+        crate::exitprobe::check("codec", MON, &mut at_exit);
+        report.merge(at_exit);
+    }
 
     let floors = vec![
         floor("all 65536 addresses swept", report.get("sweep_addresses") == 65_536, report.get("sweep_addresses")),
